@@ -13,6 +13,7 @@ import (
 	"sort"
 	"strconv"
 	"strings"
+	"sync"
 	"unsafe"
 )
 
@@ -40,11 +41,23 @@ func (g *gen) candidates() []reflect.Value {
 	return []reflect.Value{
 		reflect.ValueOf(&drvErr{n}),
 		reflect.ValueOf(&drvStringer{n}),
-		reflect.ValueOf(context.WithValue(context.Background(), ctxKey{}, n)),
+		reflect.ValueOf(someContext(n)),
 		reflect.ValueOf(bytes.NewBufferString("buf#" + strconv.Itoa(n))),
 		reflect.ValueOf(strings.NewReader("rd#" + strconv.Itoa(n))),
 		reflect.ValueOf(errors.New("err#" + strconv.Itoa(n))),
 	}
+}
+
+// someContext: distinguishable contexts; every third one is already cancelled
+// (what a configured function does with it is its business, not the mock's).
+func someContext(n int) context.Context {
+	ctx := context.WithValue(context.Background(), ctxKey{}, n)
+	if n%3 == 0 {
+		c, cancel := context.WithCancel(ctx)
+		cancel()
+		return c
+	}
+	return ctx
 }
 
 // Value makes a fresh value of type t whose fingerprint differs from every
@@ -248,10 +261,15 @@ func goid() int64 {
 	return -1
 }
 
-var regCand = map[reflect.Type]string{}
+var (
+	regCand   = map[reflect.Type]string{}
+	regCandMu sync.Mutex // race mode generates values on several goroutines
+)
 
 // registryCandidate: a new instance of some registered mock type that implements t.
 func registryCandidate(t reflect.Type) (reflect.Value, bool) {
+	regCandMu.Lock()
+	defer regCandMu.Unlock()
 	name, ok := regCand[t]
 	if !ok {
 		names := make([]string, 0, len(registry))
